@@ -1,5 +1,6 @@
 """Verdict plumbing: obligations, violations, known findings, evidence files."""
 import json
+from . import renorm
 import os
 import re
 import sys
@@ -146,6 +147,7 @@ class Check(object):
             "known_findings_reported": [k for (k, _) in kf],
             "observations": self.observations,
             "open_obligations": ["%s: %s" % (k, m) for (k, m) in self.open_list],
+            "items_identified_with_reference_names": ["%s/%s %s: %s -> %s" % r for r in sorted(set(renorm.APPLIED))],
         }
         if level == "proof" and self.discharged != self.obligations:
             level = "other"
@@ -172,6 +174,10 @@ class Check(object):
             json.dump(ev, fh, indent=1)
         for (k, m) in self.open_list[:20]:
             out.append("OPEN: property=%s %s %s" % (self.pid, k, m))
+        rn = sorted(set((r[2], r[3], r[4]) for r in renorm.APPLIED))
+        if rn:
+            out.append("NOTE: %d renamed / moved item(s) analysed under their reference names (listed in the evidence), e.g. %s" % (
+                len(rn), "; ".join("%s %s -> %s" % (k, a.rsplit("::", 1)[-1], b.rsplit("::", 1)[-1]) for k, a, b in rn[:4])))
         for line in out:
             print(line)
         print("[%s] tier=%s obligations=%d discharged=%d known=%d new=%d wall=%.1fs" % (
